@@ -142,116 +142,145 @@ def _jsonable(x):
         return repr(x)
 
 
-def run_property(pid, tier='quick', seed=0, only=None):
-    t0 = time.time()
+def _select_units(pid, tier, only):
     mod = importlib.import_module('contracts.%s' % pid.lower())
     units = [u for u in mod.units(tier) if tier in u.tiers]
     if only:
         units = [u for u in units if only in u.name]
-    known = [k for k in load_known_findings().get('known', []) if k['property'] == pid]
-    results = []
-    for u in units:
-        results.append(run_unit(u, tier, seed))
+    return mod, units
 
-    violations = []          # (unit, obligation, replay)
+
+def _unit_summary(u, r, known):
+    """Everything the parent needs from one unit, as plain data (computed in the worker process)."""
+    obls = []
+    for o in r.obligations:
+        d = o.as_dict()
+        if o.status == FAILED and o.kind not in ('cover', 'twin'):
+            try:
+                d['witness'] = u.witness_key(o.model or {}, o.label)
+            except Exception:
+                d['witness'] = None
+            hit = any(k.get('unit') in (None, u.name) and k.get('label') in (None, o.label) and
+                      (k.get('witness') is None or k.get('witness') == d['witness']) for k in known)
+            if not hit and sum(1 for x in obls if x.get('replay') is not None and x['label'] == o.label) < 3:
+                try:
+                    d['replay'] = u.replay(o.model or {}, o.label)
+                except Exception as e:
+                    d['replay'] = dict(confirmed=False, call='replay crashed', observed='%s' % e)
+        obls.append(d)
+    return dict(name=u.name, functions=list(u.functions), trusted=list(u.trusted), uses=list(getattr(u, 'uses', ())),
+                obligations=obls, paths=r.paths, undecided=r.undecided, errors=r.errors, notes=r.notes,
+                functions_seen=r.functions_seen, solver_time=r.solver_time, queries=r.queries, wall=r.wall,
+                hashes=r.hashes, conformance=r.conformance, bounded=_jsonable(r.bounded))
+
+
+def _worker(args):
+    pid, tier, seed, only, idx = args
+    _mod, units = _select_units(pid, tier, only)
+    known = [k for k in load_known_findings().get('known', []) if k['property'] == pid]
+    u = units[idx]
+    try:
+        return _unit_summary(u, run_unit(u, tier, seed), known)
+    except BaseException as e:      # never lose a unit silently
+        return dict(name=u.name, functions=list(u.functions), trusted=[], uses=[], obligations=[], paths=0, undecided=[],
+                    errors=['worker crashed: %r\n%s' % (e, traceback.format_exc())], notes=[], functions_seen={},
+                    solver_time=0.0, queries=0, wall=0.0, hashes={}, conformance=0, bounded=None)
+
+
+def run_property(pid, tier='quick', seed=0, only=None, jobs=None):
+    t0 = time.time()
+    mod, units = _select_units(pid, tier, only)
+    known = [k for k in load_known_findings().get('known', []) if k['property'] == pid]
+    jobs = jobs or int(os.environ.get('VERIF_JOBS', '0') or 0) or min(12, os.cpu_count() or 1)
+    tasks = [(pid, tier, seed, only, i) for i in range(len(units))]
+    if jobs > 1 and len(units) > 1:
+        import multiprocessing
+        ctx = multiprocessing.get_context('fork')
+        with ctx.Pool(processes=min(jobs, len(units))) as pool:
+            results = pool.map(_worker, tasks, chunksize=1)
+    else:
+        results = [_worker(t) for t in tasks]
+
+    violations = []          # (unit name, functions, obligation dict or None, replay, witness)
     known_hits = []
-    undecided = []
-    errors = []
+    undecided, errors = [], []
     n_obl = n_dis = n_known_obl = 0
-    samples = []
-    per_unit = []
-    trusted = set()
-    functions = {}
-    assumptions = set()
-    bounded = []
-    hashes = {}
-    backends = {}
+    samples, per_unit, bounded = [], [], []
+    trusted, assumptions = set(), set()
+    functions, hashes, backends = {}, {}, {}
     replay_dir = os.environ.get('VERIF_REPLAY_DIR') or os.path.join(ROOT, 'replays')
     os.makedirs(replay_dir, exist_ok=True)
 
     for r in results:
-        u = r.unit
-        trusted.update(u.trusted)
-        hashes.update(r.hashes)
-        for fn in u.functions:
-            functions[fn] = 'proved in %s' % u.name
-        for fn, kind in r.functions_seen.items():
+        name = r['name']
+        trusted.update(r['trusted'])
+        hashes.update(r['hashes'])
+        for fn in r['functions']:
+            functions[fn] = 'proved in %s' % name
+        for fn, kind in r['functions_seen'].items():
             functions.setdefault(fn, {'interpreted': 'body executed symbolically (inlined)',
                                       'contract': 'used through its contract',
                                       'assumed': 'assumed contract (external)'}.get(kind, kind))
-        assumptions.update(r.notes)
-        undecided.extend('%s: %s' % (u.name, x) for x in r.undecided)
-        errors.extend('%s: %s' % (u.name, x) for x in r.errors)
+        assumptions.update(r['notes'])
+        undecided.extend('%s: %s' % (name, x) for x in r['undecided'])
+        errors.extend('%s: %s' % (name, x) for x in r['errors'])
         nviol_before = len(violations)
         guard_errors = []
         seen_fail = set()
-        for o in r.obligations:
+        for o in r['obligations']:
             n_obl += 1
-            backends[o.backend] = backends.get(o.backend, 0) + 1
-            if o.status == DISCHARGED:
+            backends[o['backend']] = backends.get(o['backend'], 0) + 1
+            if o['status'] == DISCHARGED:
                 n_dis += 1
-                if len(samples) < 12 and o.kind == 'post' and not any(s['obligation'].startswith(u.name + ':' + o.label) for s in samples):
-                    samples.append(dict(obligation='%s:%s' % (u.name, o.label), path=o.path, status=o.status,
-                                        backend=o.backend, time_s=round(o.time, 4)))
-            elif o.status == FAILED:
-                if o.kind in ('cover', 'twin'):
-                    guard_errors.append('%s: soundness guard %s failed (vacuity or twin not refuted)' % (u.name, o.label))
+                if len(samples) < 12 and o['kind'] == 'post' and not any(x['obligation'] == '%s:%s' % (name, o['label']) for x in samples):
+                    samples.append(dict(obligation='%s:%s' % (name, o['label']), path=o['path'], status=o['status'],
+                                        backend=o['backend'], time_s=o['time_s']))
+            elif o['status'] == FAILED:
+                if o['kind'] in ('cover', 'twin'):
+                    guard_errors.append('%s: soundness guard %s failed (vacuity or twin not refuted)' % (name, o['label']))
                     continue
-                key = (o.label,)
-                wk = None
-                try:
-                    wk = u.witness_key(o.model or {}, o.label)
-                except Exception:
-                    wk = None
-                rp = None
-                try:
-                    rp = u.replay(o.model or {}, o.label)
-                except Exception as e:
-                    rp = dict(confirmed=False, call='replay crashed', observed='%s' % e)
+                wk = o.get('witness')
                 hit = None
                 for k in known:
-                    if k.get('unit') in (None, u.name) and k.get('label') in (None, o.label) and \
+                    if k.get('unit') in (None, name) and k.get('label') in (None, o['label']) and \
                             (k.get('witness') is None or k.get('witness') == wk):
                         hit = k
                         break
                 if hit is not None:
-                    known_hits.append((hit, o))
+                    known_hits.append(hit)
                     n_obl -= 1          # subtracted witness: the residual obligation is what is counted
                     n_known_obl += 1
                     continue
-                dedup = (u.name, o.label, wk)
+                dedup = (name, o['label'], wk)
                 if dedup in seen_fail:
                     continue
                 seen_fail.add(dedup)
-                violations.append((u, o, rp, wk))
+                violations.append((name, r['functions'], o, o.get('replay') or dict(confirmed=False, call='(not replayed)', observed=''), wk))
         if len(violations) == nviol_before:
-            # a must-fail twin that holds on code which also fails real obligations is a symptom, not an engine fault
             errors.extend(sorted(set(guard_errors)))
-        if r.bounded:
-            bounded.append(r.bounded)
+        if r['bounded']:
+            bounded.append(r['bounded'])
             nb = 0
-            for f in r.bounded.get('failures', []):
-                # a concrete failing input on the real code
+            for f in r['bounded'].get('failures', []):
                 hit = None
                 for k in known:
-                    if k.get('unit') in (None, u.name) and k.get('witness') == f.get('witness'):
+                    if k.get('unit') in (None, name) and k.get('witness') == f.get('witness'):
                         hit = k
                 if hit is not None:
-                    known_hits.append((hit, None))
+                    known_hits.append(hit)
                 elif nb < 2:
                     nb += 1
-                    violations.append((u, None, dict(confirmed=True, call=f.get('call'), observed=f.get('observed')),
-                                       f.get('witness')))
-        per_unit.append(dict(unit=u.name, paths=r.paths, obligations=len(r.obligations),
-                             discharged=sum(1 for o in r.obligations if o.status == DISCHARGED),
-                             solver_s=round(r.solver_time, 3), queries=r.queries, wall_s=round(r.wall, 3),
-                             conformance_runs=r.conformance,
-                             functions=list(u.functions)))
+                    violations.append((name, r['functions'], None,
+                                       dict(confirmed=True, call=f.get('call'), observed=f.get('observed')), f.get('witness')))
+        per_unit.append(dict(unit=name, paths=r['paths'], obligations=len(r['obligations']),
+                             discharged=sum(1 for o in r['obligations'] if o['status'] == DISCHARGED),
+                             solver_s=round(r['solver_time'], 3), queries=r['queries'], wall_s=round(r['wall'], 3),
+                             conformance_runs=r['conformance'], functions=r['functions'], uses=r['uses']))
 
     # ---- report ----------------------------------------------------------------
     lines = []
     printed_known = set()
-    for hit, o in known_hits:
+    for hit in known_hits:
         kid = hit.get('id') or hit.get('what')
         if kid in printed_known:
             continue
@@ -259,25 +288,24 @@ def run_property(pid, tier='quick', seed=0, only=None):
         lines.append('KNOWN-FINDING: property=%s %s' % (pid, hit['what']))
     vcount = 0
     per_label = {}
-    for i, (u, o, rp, wk) in enumerate(violations):
+    for i, (uname, ufuncs, o, rp, wk) in enumerate(violations):
         vcount += 1
-        label = o.label if o is not None else 'bounded'
-        per_label[(u.name, label)] = per_label.get((u.name, label), 0) + 1
-        if per_label[(u.name, label)] > 3:
+        label = o['label'] if o is not None else 'bounded'
+        per_label[(uname, label)] = per_label.get((uname, label), 0) + 1
+        if per_label[(uname, label)] > 3:
             continue            # further witnesses of the same obligation are counted, not listed
-        fname = os.path.join(replay_dir, '%s-%s-%s-%d.json' % (pid, u.name.replace('/', '_'), _safe(label), i))
-        doc = dict(property=pid, unit=u.name, obligation=label,
-                   functions=list(u.functions),
+        fname = os.path.join(replay_dir, '%s-%s-%s-%d.json' % (pid, uname.replace('/', '_'), _safe(label), i))
+        doc = dict(property=pid, unit=uname, obligation=label, functions=ufuncs,
                    solver=dict(status='sat (counter-model)' if o is not None else 'concrete failing input',
-                               backend=o.backend if o is not None else 'cpython',
-                               model=_jsonable(o.model) if o is not None else None,
-                               note=o.note if o is not None else ''),
+                               backend=o['backend'] if o is not None else 'cpython',
+                               model=_jsonable(o['model']) if o is not None else None,
+                               note=o['note'] if o is not None else ''),
                    witness=wk, replay=_jsonable(rp),
-                   rerun='cd /verif && ./check %s --tier %s --only %s' % (pid, tier, u.name))
+                   rerun='cd /verif && ./check %s --tier %s --only %s' % (pid, tier, uname))
         with open(fname, 'w') as f:
             json.dump(doc, f, indent=1, default=repr)
         tail = '' if rp and rp.get('confirmed') else ' no-failing-input-found'
-        lines.append('VIOLATION property=%s replay=%s obligation=%s:%s%s' % (pid, fname, u.name, label, tail))
+        lines.append('VIOLATION property=%s replay=%s obligation=%s:%s%s' % (pid, fname, uname, label, tail))
 
     status = 0
     if vcount:
@@ -297,10 +325,11 @@ def run_property(pid, tier='quick', seed=0, only=None):
             functions_under_contract=functions,
             units=per_unit,
             backends=backends,
-            solver_s=round(sum(r.solver_time for r in results), 3),
+            solver_s=round(sum(r['solver_time'] for r in results), 3),
+            parallel_jobs=jobs,
             samples=samples or [dict(note='no discharged post obligation to sample')],
             bounded=bounded,
-            known_findings=sorted({h['what'] for h, _ in known_hits}),
+            known_findings=sorted({h['what'] for h in known_hits}),
             known_finding_witnesses_subtracted=n_known_obl,
             undecided=undecided, errors=errors,
             source_sha256={os.path.relpath(k, REPO) if k.startswith(REPO) else k: v for k, v in hashes.items()},
